@@ -2,10 +2,12 @@ package scen
 
 import (
 	"bytes"
+	"crypto/tls"
 	"errors"
 	"fmt"
 	"io"
 	"math/big"
+	"time"
 
 	"github.com/tjfoc/gmsm/gmtls"
 	"github.com/tjfoc/gmsm/verifsim/pki"
@@ -25,6 +27,7 @@ var authItems = []string{
 	"S4-rsa-sign-cert", "S4-p256-sign-cert", "S4-rsa-enc-cert", "S5-skx-other-key", "S6-skx-replayed-randoms", "S7-skx-other-enc-cert", "S8-skx-omitted", "S9-skx-malformed",
 	"S10-no-enc-key", "S11-certs-swapped", "S12-one-cert", "S13-eku-clientauth-only", "S14-keyusage-sign-cert", "S14-keyusage-enc-cert", "V1-client-callback-rejects", "S15-untrusted-ca-ships-its-root", "S15-extra-unrelated-selfsigned",
 	"C0-honest-client", "C1-no-cert", "C2-untrusted-ca", "C3-cv-other-key", "C4-cv-other-transcript", "C5-cv-omitted", "C6-selfsigned-allowed", "C7-selfsigned-cv-other-key", "C8-ifgiven-no-cert", "C9-expired", "C9-server-clock-after", "C10-eku-serverauth-only", "V2-server-callback-rejects", "C11-foreign-cert-first-own-cert-second", "C12-certificate-message-omitted",
+	"T0-honest", "T1-wrong-name", "T2-untrusted-root", "T3-client-cert-untrusted", "T4-no-client-cert", "T5-client-cert-if-given-untrusted", "T6-ip-literal-name",
 	"M-flip-byte", "M-replace-from-session1", "M-drop", "M-duplicate", "M-swap", "M-suite-strip", "M-serverhello-suite", "M-cert-substitute", "M7-refragment(legal)", "M7-warning-alert", "clock-skew",
 }
 var authReach = []string{"victim-rejected", "allowed-completed", "honest-completed", "gm-cbc", "gm-gcm", "policy-request", "policy-require-any", "policy-verify-if-given", "policy-require-and-verify", "mitm-both-failed", "mitm-one-failed", "mitm-noop-completed", "session1-harvested", "rewrite-clienthello", "rewrite-serverhello", "rewrite-certificate", "rewrite-skx", "rewrite-ckx", "rewrite-other", "views-compared"}
@@ -32,6 +35,7 @@ var authReach = []string{"victim-rejected", "allowed-completed", "honest-complet
 func init() {
 	register(Family{Name: "tls-auth-impostor", Prop: "C08", ID: 801, Weight: 3, FaultNames: authItems, ReachNames: authReach, Run: runAuthImpostor})
 	register(Family{Name: "tls-auth-mitm", Prop: "C08", ID: 802, Weight: 2, FaultNames: authItems, ReachNames: authReach, Run: runAuthMITM})
+	register(Family{Name: "tls-auth-stdpeer", Prop: "C08", ID: 803, Weight: 1, FaultNames: authItems, ReachNames: authReach, Run: runAuthStdPeer})
 }
 
 func ident(name string, withKey bool) *reftls.Identity {
@@ -587,7 +591,8 @@ func runAuthMITM(c *simkit.Choice, r *simkit.Rec) {
 	pki.Load()
 	suiteList := [][]uint16{{gmSuites[0], gmSuites[1]}, {gmSuites[1], gmSuites[0]}, {gmSuites[0]}, {gmSuites[1]}}[c.Choose(4, simkit.LScen)]
 	clientAuth := c.Bool(1, 2, simkit.LScen)
-	kinds := []string{"M-flip-byte", "M-replace-from-session1", "M-drop", "M-duplicate", "M-swap", "M-suite-strip", "M-serverhello-suite", "M-cert-substitute", "M7-refragment(legal)", "M7-warning-alert"}
+	kinds := []string{"T0-honest", "T1-wrong-name", "T2-untrusted-root", "T3-client-cert-untrusted", "T4-no-client-cert", "T5-client-cert-if-given-untrusted", "T6-ip-literal-name",
+		"M-flip-byte", "M-replace-from-session1", "M-drop", "M-duplicate", "M-swap", "M-suite-strip", "M-serverhello-suite", "M-cert-substitute", "M7-refragment(legal)", "M7-warning-alert"}
 	rw := &mitmRewrite{Kind: kinds[c.Weighted([]int{5, 4, 2, 2, 2, 2, 2, 3, 2, 1}, simkit.LFault)]}
 	rw.Dir = c.Choose(2, simkit.LFault)
 	maxIdx := 1 // c2s before CCS: CH, [Cert], CKX, [CV]
@@ -826,4 +831,152 @@ func runAuthMITM(c *simkit.Choice, r *simkit.Rec) {
 	}
 	r.Outcome = "aborted"
 	_ = io.EOF
+}
+
+// ---- plain TLS path: the Go standard library's crypto/tls as the peer whose
+// credentials lack something (certificate-level items only: the standard
+// library cannot be made to forge protocol messages).
+
+func runAuthStdPeer(c *simkit.Choice, r *simkit.Rec) {
+	pki.Load()
+	items := []string{"T0-honest", "T1-wrong-name", "T2-untrusted-root", "T3-client-cert-untrusted", "T4-no-client-cert", "T5-client-cert-if-given-untrusted", "T6-ip-literal-name"}
+	item := items[c.Choose(len(items), simkit.LFault)]
+	vers := []uint16{gmtls.VersionTLS12, gmtls.VersionTLS11, gmtls.VersionTLS10}[c.Choose(3, simkit.LScen)]
+	suite := uint16(0x002f)
+	if vers == gmtls.VersionTLS12 && c.Bool(1, 2, simkit.LScen) {
+		suite = 0xc02f
+	}
+	victimSrv := item == "T3-client-cert-untrusted" || item == "T4-no-client-cert" || item == "T5-client-cert-if-given-untrusted"
+	if item == "T0-honest" {
+		victimSrv = c.Bool(1, 2, simkit.LScen)
+	}
+	autoSwitch := victimSrv && c.Bool(1, 2, simkit.LScen)
+	expect := expFail
+	if item == "T0-honest" {
+		expect = expComplete
+	}
+	entV := simkit.NewStream(uint64(c.Choose(1<<31, simkit.LEntropy)) + 81)
+	entP := simkit.NewStream(uint64(c.Choose(1<<31, simkit.LEntropy)) + 83)
+	n1, n2 := simkit.DrawNetCfg(c), simkit.DrawNetCfg(c)
+	s := simkit.NewSim(c, simkit.Policy{StarveNode: -1}, 3000000)
+	vRaw, pRaw := s.NewConnPair("victim", "stdpeer", n1, n2)
+	r.Config = fmt.Sprintf("%s/tls%04x/%04x/auto%v", item, vers, suite, autoSwitch)
+	r.SigStr(r.Config)
+	var victim endRes
+	var vApp []byte
+	vDone := false
+	var peerErr error
+	s.Spawn("victim", 0, func() {
+		var conn *gmtls.Conn
+		if victimSrv {
+			var cfg *gmtls.Config
+			if autoSwitch {
+				sg, en, st := pki.GM("srv-sign"), pki.GM("srv-enc"), pki.GMStd("tlsrsa")
+				cfg, _ = gmtls.NewBasicAutoSwitchConfig(&sg, &en, &st)
+			} else {
+				cfg = &gmtls.Config{Certificates: []gmtls.Certificate{pki.GMStd("tlsrsa")}}
+			}
+			cfg.Rand, cfg.Time = entV, simTime(s, 0)
+			cfg.ClientCAs = pki.Pool("rsaCA")
+			cfg.ClientAuth = gmtls.RequireAndVerifyClientCert
+			switch item {
+			case "T4-no-client-cert":
+				cfg.ClientAuth = []gmtls.ClientAuthType{gmtls.RequireAndVerifyClientCert, gmtls.RequireAnyClientCert}[c.Choose(2, simkit.LFault)]
+			case "T5-client-cert-if-given-untrusted":
+				cfg.ClientAuth = gmtls.VerifyClientCertIfGiven
+			}
+			cfg.SessionTicketsDisabled = true
+			conn = gmtls.Server(vRaw, cfg)
+		} else {
+			cfg := &gmtls.Config{Rand: entV, Time: simTime(s, 0), RootCAs: pki.Pool("rsaCA"), ServerName: "server.sim", CipherSuites: []uint16{suite}, MinVersion: vers, MaxVersion: vers}
+			switch item {
+			case "T2-untrusted-root":
+				cfg.RootCAs = pki.Pool("caA")
+			case "T6-ip-literal-name":
+				cfg.ServerName = "192.0.2.9"
+			}
+			conn = gmtls.Client(vRaw, cfg)
+		}
+		victim.HsErr = conn.Handshake()
+		collectState(conn, &victim)
+		if victim.HsErr != nil {
+			vRaw.Close()
+			vDone = true
+			return
+		}
+		buf := make([]byte, 64)
+		for {
+			n, err := conn.Read(buf)
+			vApp = append(vApp, buf[:n]...)
+			if err != nil {
+				break
+			}
+		}
+		conn.Close()
+		vDone = true
+	})
+	s.Spawn("stdpeer", 1, func() {
+		cfg := &tls.Config{Rand: entP, Time: func() time.Time { return simkit.TimeAt(0) }, MinVersion: vers, MaxVersion: vers, CipherSuites: []uint16{suite}, SessionTicketsDisabled: true}
+		var conn *tls.Conn
+		if victimSrv {
+			cfg.RootCAs = pki.StdPool("rsaCA")
+			cfg.ServerName = "server.sim"
+			switch item {
+			case "T0-honest":
+				cfg.Certificates = []tls.Certificate{{Certificate: [][]byte{pki.DER("tlsclirsa")}, PrivateKey: pki.StdKey("tlsclirsa")}}
+			case "T3-client-cert-untrusted", "T5-client-cert-if-given-untrusted":
+				// an RSA certificate issued by the SM2 root: not under the server's ClientCAs
+				cfg.Certificates = []tls.Certificate{{Certificate: [][]byte{pki.DER("srvrsa")}, PrivateKey: pki.StdKey("srvrsa")}}
+				cfg.GetClientCertificate = func(*tls.CertificateRequestInfo) (*tls.Certificate, error) { return &cfg.Certificates[0], nil }
+			}
+			conn = tls.Client(pRaw, cfg)
+		} else {
+			name := "tlsrsa"
+			if item == "T1-wrong-name" {
+				name = "tlsrsa2"
+			}
+			cfg.Certificates = []tls.Certificate{{Certificate: [][]byte{pki.DER(name)}, PrivateKey: pki.StdKey(name)}}
+			conn = tls.Server(pRaw, cfg)
+		}
+		peerErr = conn.Handshake()
+		if peerErr == nil {
+			conn.Write([]byte("peer speaks"))
+			conn.Close()
+		}
+		pRaw.Close()
+	})
+	s.Run()
+	r.FromSim(s)
+	r.Sig(s.TraceHash()[0])
+	r.Nontrivial = expect == expFail
+	r.Fault(idx(authItems, item))
+	r.Detail = map[string]interface{}{"item": item, "victim": map[bool]string{true: "server", false: "client"}[victimSrv], "tls_version": fmt.Sprintf("%04x", vers), "suite": fmt.Sprintf("%04x", suite), "auto_switch": autoSwitch,
+		"victim_err": errStr(victim.HsErr), "peer_err": errStr(peerErr)}
+	s.TaskPanics(r)
+	if r.Violation() != nil || r.HarnessErr != "" {
+		return
+	}
+	if !vDone {
+		r.Violate("keeps-waiting", item, fmt.Sprintf("victim did not return: %v", s.Blocked))
+		return
+	}
+	if expect == expFail {
+		if victim.HsErr == nil || victim.HsDone {
+			r.Violate("impostor-accepted", item, fmt.Sprintf("TLS %04x victim %s completed the handshake with a peer lacking a credential: %s", vers, r.Detail["victim"], item))
+			return
+		}
+		if len(vApp) > 0 {
+			r.Violate("impostor-accepted", item, "application data accepted from the peer")
+			return
+		}
+		r.Reach(idx(authReach, "victim-rejected"))
+		r.Outcome = "rejected"
+		return
+	}
+	if victim.HsErr != nil || peerErr != nil {
+		r.Violate("honest-peer-rejected", item, fmt.Sprintf("honest standard-library peer rejected: victim=%v peer=%v", victim.HsErr, peerErr))
+		return
+	}
+	r.Reach(idx(authReach, "honest-completed"))
+	r.Outcome = "completed"
 }
